@@ -207,6 +207,50 @@ fn simplint_cfg(rng: &mut Rng) -> g::Cfg {
     c
 }
 
+/// The parser MODEL (Model/FolParse.v, fuel-driven) needs time exponential in the depth of a chain of
+/// unparenthesised prefix operators (`forall X exists Y not not forall Z ..`: 0.04 s at depth 14, 2 s at
+/// depth 20, a minute at 25); the real parser does not.  Texts for the CLI correspondence stay below it.
+const MODEL_DEPTH: usize = 14;
+fn unary_depth(f: &fol::Formula) -> usize {
+    use fol::Formula as F;
+    match f {
+        F::AtomicFormula(_) => 0,
+        F::UnaryFormula { formula, .. } => 1 + unary_depth(formula),
+        F::QuantifiedFormula { formula, .. } => 1 + unary_depth(formula),
+        F::BinaryFormula { lhs, rhs, .. } => unary_depth(lhs).max(unary_depth(rhs)),
+    }
+}
+/// one or two formulas on which the fixpoint loop needs a dozen passes and more, within MODEL_DEPTH
+fn deep_text(rng: &mut Rng) -> String {
+    use crate::ext::clsterm;
+    let n = 1 + rng.weighted(&[8, 2]);
+    let fs: Vec<fol::Formula> = (0..n)
+        .map(|_| {
+            for _ in 0..20 {
+                let f = match rng.below(3) {
+                    0 => {
+                        let n = 11 + rng.below(3);
+                        clsterm::fam_prefix(rng, n)
+                    }
+                    1 => {
+                        let n = 12 + rng.below(18);
+                        clsterm::fam_pulled(rng, n)
+                    }
+                    _ => {
+                        let n = 11 + rng.below(6);
+                        clsterm::fam_taustar(rng, n)
+                    }
+                };
+                if unary_depth(&f) <= MODEL_DEPTH && clsterm::tame(&f) {
+                    return f;
+                }
+            }
+            clsterm::fam_pulled(rng, 14)
+        })
+        .collect();
+    fol::Theory { formulas: fs }.to_string()
+}
+
 fn redex_rich(rng: &mut Rng) -> fol::Formula {
     match rng.weighted(&[3, 3, 3, 2, 1, 3, 2, 2]) {
         // the redex shape of each classic rule (all pairs of sorts in the transitive-equality redex),
@@ -217,7 +261,15 @@ fn redex_rich(rng: &mut Rng) -> fol::Formula {
             simplcls::formula_for(rng, rule)
         }
         6 => super::gentext::mixed_block(rng),
-        7 => crate::ext::clsterm::tame_case(rng),
+        7 => {
+            for _ in 0..20 {
+                let f = crate::ext::clsterm::tame_case(rng);
+                if unary_depth(&f) <= MODEL_DEPTH {
+                    return f;
+                }
+            }
+            crate::ext::clsterm::fam_pulled(rng, 3)
+        }
         0 => {
             let c = simplint_cfg(rng);
             let d = 1 + rng.below(3);
@@ -365,7 +417,7 @@ fn gen_simplify(rng: &mut Rng) -> Sexp {
     if rng.chance(4) {
         // the fixpoint strategy on formulas that need a dozen passes and more (at most 64 in the model)
         let pf = *rng.pick(&["classic", "classic", "ht"]);
-        return case(cmd("simplify", &[pf, "fixpoint"]), super::gentext::deep_theory_text(rng));
+        return case(cmd("simplify", &[pf, "fixpoint"]), deep_text(rng));
     }
     let pf = *rng.pick(PORTFOLIOS);
     let st = *rng.pick(STRATEGIES);
